@@ -50,8 +50,11 @@ extern "C" void h_c32_precedence(unsigned long with_env, unsigned long chain) {
     Value grand = with_port(obj(), verif_concretize(in_grand, 2) && chain >= 2, p_grand);
     Value base = with_port(obj(), verif_concretize(in_base, 2) && chain >= 1, p_base); if (chain >= 2) base.as_object()["extends"] = Value(std::string("grand"));
     Value dflt = with_port(obj(), verif_concretize(in_default, 2), p_default); if (chain >= 1) dflt.as_object()["extends"] = Value(std::string("base"));
-    // a second, unrelated option set only in the profile: storage.persistent (bool) - must survive every merge
-    { Value st = obj(); st.as_object()["persistent"] = Value(true); dflt.as_object()["storage"] = st; }
+    // a boolean option with its own flag pair (--persistent / --no-persistent): storage.persistent, set in the selected profile to a symbolic
+    // value; the flag layer is absent, true or false
+    const bool file_persistent = nondet_bool("profile_persistent_value");
+    { Value st = obj(); st.as_object()["persistent"] = Value(verif_concretize(file_persistent, 2) != 0); dflt.as_object()["storage"] = st; }
+    std::uint8_t persist_flag = nondet_u8("persistent_flag"); verif_assume(persist_flag < 3); persist_flag = static_cast<std::uint8_t>(verif_concretize(persist_flag, 3));   // 0 no flag, 1 --persistent, 2 --no-persistent
     profiles.as_object()["default"] = dflt; if (chain >= 1) profiles.as_object()["base"] = base; if (chain >= 2) profiles.as_object()["grand"] = grand;
     doc.as_object()["profiles"] = profiles;
     GlobalOptions options{}; options.config_path = std::string("cfg.yaml");
@@ -63,6 +66,7 @@ extern "C" void h_c32_precedence(unsigned long with_env, unsigned long chain) {
         options.environment = std::string("prod");
     }
     if (verif_concretize(by_flag, 2)) options.control_port = p_flag;
+    if (persist_flag) { options.persistent_set = true; options.persistent = persist_flag == 1; }
     lifted::config::g_document = doc;
     lifted::load_configuration(options);
     // reference: flags, then environment overrides, then the selected profile, then its ancestors, then the built-in default (unset)
@@ -74,7 +78,7 @@ extern "C" void h_c32_precedence(unsigned long with_env, unsigned long chain) {
     else if (chain >= 2 && in_grand) want = p_grand;
     verif_assert(options.control_port.has_value() == want.has_value(), "C32: a setting is taken from some layer exactly when a layer sets it");
     if (want && options.control_port) verif_assert(static_cast<std::int64_t>(*options.control_port) == *want, "C32: each effective setting equals the value from the highest-precedence layer that sets it");
-    verif_assert(options.persistent_set && options.persistent, "C32: settings of the selected profile that no higher layer touches are kept");
+    verif_assert(options.persistent_set && options.persistent == (persist_flag ? persist_flag == 1 : file_persistent), "C32: a boolean setting equals the flag when one was given (--persistent / --no-persistent) and the profile value otherwise");
     verif_reach("resolved");
 }
 // cyclic and missing profiles are reported as errors (never looping, never ignored)
@@ -82,7 +86,11 @@ extern "C" void h_c32_errors(unsigned long kind) {
     Value doc = obj(); Value profiles = obj(); Value dflt = obj(), other = obj();
     if (kind == 0) dflt.as_object()["extends"] = Value(std::string("default"));                                         // self cycle
     if (kind == 1) { dflt.as_object()["extends"] = Value(std::string("other")); other.as_object()["extends"] = Value(std::string("default")); }   // 2-cycle
-    if (kind == 2) dflt.as_object()["extends"] = Value(std::string("missing"));                                         // missing ancestor
+    if (kind == 2) dflt.as_object()["extends"] = Value(std::string("missing"));
+    Value third = obj();
+    if (kind == 4) { dflt.as_object()["extends"] = Value(std::string("other")); other.as_object()["extends"] = Value(std::string("third")); third.as_object()["extends"] = Value(std::string("other")); }   // default -> other -> third -> other ...
+    if (kind == 4) profiles.as_object()["third"] = third;
+    verif_depth_limit(200);                                                                                               // unbounded recursion is a violation, not a long run                                         // missing ancestor
     profiles.as_object()["default"] = dflt; profiles.as_object()["other"] = other; doc.as_object()["profiles"] = profiles;
     GlobalOptions options{}; options.config_path = std::string("cfg.yaml");
     if (kind == 3) options.profile_name = std::string("nope");                                                            // missing selected profile
